@@ -345,9 +345,9 @@ def check_rows(ctx, P, cv, rows, present, polygons, fmt, jsonish, ring_any_direc
 def cases(tier):
     q = tier == 'quick'
     cfgs = [('cf1d', (2, 2), 'none', ()), ('cf2d', (2, 2), 'stored', None), ('shoc_standard', (1, 2), 'none', None),
-            ('shoc_simple', (2, 2), 'none', ((0, 0), (1, 1)))]
+            ('shoc_simple', (2, 2), 'none', ((0, 0), (1, 1))), ('cf1d', (2, 3), 'stored', ()), ('cf2d', (2, 3), 'misdim', ())]
     if not q:
-        cfgs += [('cf1d', (2, 3), 'stored', ()), ('cf2d', (2, 3), 'none', ((0, 1), (1, 1), (1, 2))), ('shoc_standard', (2, 2), 'none', ((0, 0), (1, 1), (2, 2))),
+        cfgs += [('cf1d', (3, 3), 'stored', ()), ('cf2d', (2, 3), 'none', ((0, 1), (1, 1), (1, 2))), ('shoc_standard', (2, 2), 'none', ((0, 0), (1, 1), (2, 2))),
                  ('cf2d', (3, 2), 'stored', ((0, 0), (2, 1), (1, 1)))]
     for conv, shape, bounds, nan_cells in cfgs:
         nm = 'all' if nan_cells is None else len(nan_cells)
